@@ -665,6 +665,8 @@ def plaintexts_of(h):
             pt = rr.aead_open(k.private_ct, k.userkey)
             if pt:
                 out.append(('key private section', pt))
+            out += [('user key', k.userkey), ('shared key', k.shared_key), ('MAC key', k.mac_key), ('chunker key', k.chunker_key),
+                    ('shared KDF salt', k.shared_salt)] + ([('password', k.password)] if k.password else [])
     except Exception:
         pass
     seen, res = set(), []
@@ -976,6 +978,66 @@ def init_settings_probe(ctx, rep):
             shutil.rmtree(root, ignore_errors=True)
 
 
+REINIT = [('an unencrypted repository', None, None), ('a repository with another cipher and hash', ('chacha20_poly1305', None), {'name': 'sha2', 'bits': 256})]
+
+
+def reinit_probe(ctx, rep):
+    """A location that already holds a repository (unencrypted, or encrypted with other settings and another password) is
+    initialised AGAIN with a password; a fresh session with the new key then takes a snapshot.  The location is now an
+    encrypted repository with the new settings: its config says so, and nothing written after the re-init is tainted."""
+    import random
+    for idx, (what0, cipher0, hashing0) in enumerate(REINIT):
+        seed = ctx.rng.randrange(1 << 30)
+        rng = random.Random(seed)
+        root = Path(ctx.scratch) / f'c05-reinit-{idx}'
+        old_tree = root / 'earlier'
+        repolab.make_tree(rng, old_tree, 2, maxlen=300)
+        tree = root / f'confidential-{rng.randbytes(4).hex()}'
+        files = repolab.make_tree(rng, tree, 2, maxlen=600)
+        files = {str(Path(p).rename(Path(p).with_name(f'secretname{i}-{rng.randbytes(4).hex()}.dat'))): d for i, (p, d) in enumerate(sorted(files.items()))}
+        be = MemBackend()
+        replay = {'reinit': idx}
+        label = f're-init of a location that holds {what0}'
+        rep.case(('reinit', idx, seed), nontrivial=True)
+        rep.count('probe:reinit')
+        first = repolab.Client(be, password=b'earlier-password' if cipher0 else None)
+        assert first.init(repolab.settings_for(cipher0, hashing=hashing0)).ok
+        assert first.snapshot([old_tree], note='earlier').ok
+        mark = len(be.log)
+        pw = b'pass-reinit-' + rng.randbytes(6).hex().encode()
+        note = f'note-reinit-{rng.randbytes(5).hex()}'
+        second = repolab.Client(be, password=pw)
+        o = second.init(repolab.settings_for(('aes_gcm', None), hashing={'name': 'blake2b', 'length': 32}))
+        outputs = [('init', o.stdout, o.stderr)]
+        if not o.ok:
+            rep.notes.append(f'{label}: the second init is refused ({o.detail[:80]})')       # refusing is fine: nothing is written
+            shutil.rmtree(root, ignore_errors=True)
+            continue
+        config = refreader.parse_json(be.objects['config'])
+        if config.get('encryption') is None or o.value.key is None:
+            rep.violations.append({'what': f'{label} with a password: ' + ('the config at the location has no encryption section' if config.get('encryption') is None
+                                                                           else 'no key was produced') + ' - what is stored from now on is not encrypted',
+                                   'signature': {'secret': 'encryption silently off', 'where': 'config', 'scenario': 'reinit'}, 'replay': replay})
+        fresh = repolab.Client(be, password=pw, key=second.key)
+        s1 = fresh.snapshot([tree], note=note)
+        outputs.append(('snapshot', s1.stdout, s1.stderr))
+        if not s1.ok:
+            rep.disagreements.append({'what': f'{label}: the snapshot of the fresh session failed: {s1.detail}', 'replay': replay})
+        h = {'cid': 2000 + idx, 'config': be.objects['config'], 'keys': {'owner': second.key} if second.key else {}, 'passwords': {'owner': pw},
+             'to_file': {'owner': False}, 'keyfiles': {}, 'outputs': outputs, 'log': list(be.log[mark:]),
+             'snapshots': [(s1.value, 'owner')] if s1.ok else [], 'files': [files], 'notes': [note]}
+        hits, cnt = taint_scan(h)
+        rep.evaluations += cnt
+        seen = set()
+        for hit in hits:
+            if (hit['secret'], hit['where']) in seen:
+                continue
+            seen.add((hit['secret'], hit['where']))
+            rep.violations.append({'what': f'{label}, then a snapshot by a fresh session: {hit["secret"]} found in {hit["form"]} form in {hit["where"]}',
+                                   'signature': {'secret': hit['secret'], 'where': hit['where'], 'scenario': 'reinit'}, 'replay': replay})
+        shutil.rmtree(root, ignore_errors=True)
+
+
 def live_sessions_case(ctx, rep, cid, hashing, chunking):
     """Several repositories of one user served by ONE process: an unencrypted repository and two encrypted ones with
     different keys, each through a long-lived Repository object, commands interleaved over the same file contents (the
@@ -1010,6 +1072,13 @@ def live_sessions_case(ctx, rep, cid, hashing, chunking):
                 got[n]['snapshots'].append(v)
             victim = sorted(files)[0]
             Path(victim).write_bytes(rng.randbytes(500))
+            if rnd == 0:
+                # keys are handed out from the very objects that go on taking snapshots
+                cheap = {'encryption': {'kdf': {'name': 'scrypt', 'n': 4}}}
+                for n in order:
+                    if specs[n]:
+                        for shared in (True, False):
+                            await repos[n].add_key(password=f'extra-{n}-{shared}'.encode(), settings={'encryption': {'kdf': dict(cheap['encryption']['kdf'])}}, shared=shared)
         for n in order:
             await repos[n].delete_snapshots([got[n]['snapshots'][0].name], confirm=False)
             await repos[n].clean()
@@ -1195,6 +1264,7 @@ def run(ctx) -> Report:
     size_threshold_probe(ctx, rep)
     live_sessions(ctx, rep)
     init_settings_probe(ctx, rep)
+    reinit_probe(ctx, rep)
     return rep
 
 
@@ -1212,12 +1282,19 @@ def search(ctx, broken) -> Report:
     size_threshold_probe(ctx, rep)
     live_sessions(ctx, rep)
     init_settings_probe(ctx, rep)
+    reinit_probe(ctx, rep)
     return rep
 
 
 def replay(ctx, obj):
     import random
     r = obj.get('replay') or {}
+    if 'reinit' in r:
+        rep = Report(rule=RULE)
+        reinit_probe(ctx, rep)
+        for v in rep.violations:
+            print('VIOLATION-REPRODUCED', v['what'])
+        return 1 if rep.violations else 0
     if 'init_settings' in r:
         rep = Report(rule=RULE)
         init_settings_probe(ctx, rep)
